@@ -88,6 +88,8 @@ func runC02(c *an.Ctx) {
 	// write callbacks run before the write lock is taken, on the message that is stored: one that edits `old` in place
 	// (instead of a copy) has changed the stored value before the attempt is decided, so a write that then loses the race
 	// and reports Aborted has left its edits behind (E2, shared with R07.1, restricted to interceptor-shaped functions)
+	shareAs(c, "R01.11", "R02.11", r0111, nil) // Delete judges its preconditions on the version it is about to remove, on every attempt (shared with R01.11)
+	c.Min("R02.11", 1)
 	r0210(c, "R02.10")
 	c.Min("R02.10", 1)
 	runE2(c, "R02.9", isWriteCallback)
